@@ -39,7 +39,7 @@ def variants():
         z=[z0, z1, z0 + 1e-9], profiles=[prof0, prof1, prof2], domain=[(60.0, 48.0), (72.0, 48.0), (60.000004, 48.0)],
         modes=[(6, 6), (4, 6), (8, 4), (6, 4), (8, 8)],
         measPt=[(20.0, 16.0), (30.0, 16.0), (20.000002, 16.0)], halo=[10.0, 20.0, 60.0, 72.0, 0.0, 60.000004, 9.999998], precision=["double", "single"],
-        levels=[2, [2], [1, 3], 3, -1, [0, -1]], shape=[(6, 6), (8, 6)], analytic=[True, False], bg=[0.0, 1.5, 1e-9],
+        levels=[2, [2], [1, 3], 3, -1, [0, -1], [3, 1], [1, 1, 3]], shape=[(6, 6), (8, 6)], analytic=[True, False], bg=[0.0, 1.5, 1e-9],
         q=[0, 1],
     )
 
@@ -63,7 +63,7 @@ def req_tokens(r, V):
             vals.append(0 if r["halo"] is None else r["halo"])
         elif f == "levels":
             # a scalar level and the one-element list hold the same request (the solver wraps scalars)
-            vals.append({0: 0, 1: 0, 2: 2, 3: 3, 4: 4, 5: 5}[r["levels"]])     # 4, 5: Python-style negative indices, requests of their own
+            vals.append({0: 0, 1: 0, 2: 2, 3: 3, 4: 4, 5: 5, 6: 6, 7: 7}[r["levels"]])     # 4, 5: Python-style negative indices, requests of their own
         else:
             vals.append(r[f])
     return " ".join(str(v) for v in vals) + (" 1" if r["halo"] is None else " 0")
